@@ -18,6 +18,9 @@ pub struct MBlock {
     pub line_count: Option<String>,
     /// check-lua: Some(true) = script echoing its content, Some(false) = script returning nil
     pub lua: Option<bool>,
+    /// check-ai: Some(true) = the fake endpoint objects, Some(false) = it answers OK
+    #[serde(default)]
+    pub ai: Option<bool>,
     pub lines: Vec<String>,
 }
 
@@ -69,6 +72,9 @@ impl MBlock {
         if let Some(echo) = self.lua {
             attrs.push(("check-lua".into(), Some(if echo { "echo.lua".into() } else { "nil.lua".into() })));
         }
+        if let Some(bad) = self.ai {
+            attrs.push(("check-ai".into(), Some(format!("condition for {name} {}", if bad { "BAD" } else { "GOOD" }))));
+        }
         RuleBlock { attrs, lines: self.lines.clone(), indent: 0 }
     }
 
@@ -102,6 +108,9 @@ impl MBlock {
         if self.lua == Some(true) {
             let content = self.lines.join("\n");
             out.push(ExpDiag::tag("check-lua", pos).sev(sev).with_data("/lua_error", json!(format!("E:{}", content.trim()))));
+        }
+        if self.ai == Some(true) {
+            out.push(ExpDiag::tag("check-ai", pos).sev(sev).with_data("/ai_message", json!("objection from the fake endpoint")));
         }
         out
     }
@@ -181,6 +190,10 @@ pub fn check(case: &MCase, probe: &Probe) -> Verdict {
     };
     sb.write("echo.lua", ECHO_LUA.as_bytes());
     sb.write("nil.lua", NIL_LUA.as_bytes());
+    let fake = crate::fakeai::FakeAi::start(|_, req| {
+        if req.user_message().unwrap_or_default().contains("BAD") { crate::fakeai::Reply::Text("objection from the fake endpoint".into()) } else { crate::fakeai::Reply::Text("OK".into()) }
+    });
+    let with_ai = |r: BwRun| r.env("BLOCKWATCH_AI_API_URL", &fake.url()).env("BLOCKWATCH_AI_API_KEY", "k").env("BLOCKWATCH_AI_MODEL", "m");
     let paths: Vec<&str> = laid.iter().map(|l| l.path.as_str()).collect();
     let out = match case.mode % 3 {
         0 | 1 => {
@@ -188,7 +201,7 @@ pub fn check(case: &MCase, probe: &Probe) -> Verdict {
                 sb.write(&l.path, l.text.as_bytes());
             }
             probe.child();
-            if case.mode % 3 == 0 { sb.bw(&BwRun::scan(&paths)) } else { sb.bw(&BwRun::scan(&[])) }
+            if case.mode % 3 == 0 { sb.bw(&with_ai(BwRun::scan(&paths))) } else { sb.bw(&with_ai(BwRun::scan(&[]))) }
         }
         _ => {
             sb.init_repo();
@@ -199,7 +212,7 @@ pub fn check(case: &MCase, probe: &Probe) -> Verdict {
             sb.git_ok(&["add", "-A"]);
             let d = sb.git_diff(&["--cached"]);
             probe.child();
-            sb.bw(&BwRun::diff(&[], d.as_bytes()))
+            sb.bw(&with_ai(BwRun::diff(&[], d.as_bytes())))
         }
     };
     probe.sample(|| json!({"mode": case.mode % 3, "files": laid.iter().map(|l| json!({"path": l.path, "text": crate::cli::trunc(&l.text, 400), "expected": format!("{:?}", l.expected)})).collect::<Vec<_>>(), "exit": out.code}));
@@ -265,15 +278,17 @@ pub fn block_strategy() -> BoxedStrategy<MBlock> {
         proptest::option::weighted(0.6, 0..models::LINE_PATS.len()),
         proptest::option::weighted(0.6, (0usize..5, 0u64..5)),
         proptest::option::weighted(0.4, any::<bool>()),
+        proptest::option::weighted(0.3, any::<bool>()),
         proptest::collection::vec(0..LINES.len(), 0..7),
     )
-        .prop_map(|(sev, ks, ku, lp, lc, lua, ls)| MBlock {
+        .prop_map(|(sev, ks, ku, lp, lc, lua, ai, ls)| MBlock {
             severity: SEVS[sev].map(String::from),
             keep_sorted: ks.map(String::from),
             keep_unique: ku,
             line_pattern: lp.map(|i| models::LINE_PATS[i].re.to_string()),
             line_count: lc.map(|(op, n)| format!("{}{n}", models::Op::ALL[op].text())),
             lua,
+            ai,
             lines: ls.into_iter().map(|i| LINES[i].to_string()).collect(),
         })
         .boxed()
@@ -290,7 +305,7 @@ pub fn case_strategy() -> BoxedStrategy<MCase> {
 }
 
 pub fn run(run: &mut Run) {
-    run.rule = "random: 1..5 files (root or sub-directories) x 1..6 blocks x independent choice of keep-sorted / keep-unique / line-pattern / line-count / check-lua(echo|nil) on the same lines x severity in {absent, error, warning, info, hint} in random letter case; modes: scan with paths, interactive scan, new-file diff on stdin; then `list`. Expected diagnostics from the C06–C09 reference models. Non-trivial case = at least two validators reporting on one file and an error among >= 2 non-errors (or the converse).".into();
+    run.rule = "random: 1..5 files (root or sub-directories) x 1..6 blocks x independent choice of keep-sorted / keep-unique / line-pattern / line-count / check-lua(echo|nil) / check-ai(fake endpoint objecting or answering OK) on the same lines x severity in {absent, error, warning, info, hint} in random letter case; modes: scan with paths, interactive scan, new-file diff on stdin; then `list`. Expected diagnostics from the C06–C09 reference models. Non-trivial case = at least two validators reporting on one file and an error among >= 2 non-errors (or the converse).".into();
     run.assumptions = vec!["block content lines are shell/ruby words; check-lua scripts are `echo` / `nil` scripts in the repository root".into()];
     run.random("mix", run.tier.pick(1200, 30000), case_strategy, check);
 }
